@@ -51,3 +51,167 @@ def chunks(bits, n, pad):
     if pad and len(out[-1]) < n:
         out[-1] = out[-1] + '0' * (n - len(out[-1]))
     return out
+
+# =====================================================================================================
+# RFC 8724 reference on plain structures (dict fields / rules as produced by harness.codec.p_*)
+# =====================================================================================================
+
+def enc_len(n):
+    """RFC 8724 §7.4.2 size prefix"""
+    assert 0 <= n < 65536
+    if n < 15: return format(n, '04b')
+    if n < 255: return '1111' + format(n, '08b')
+    return '1' * 12 + format(n, '016b')
+
+def dec_len(s):
+    """(size, prefix width) read at the start of s; missing bits read as the shorter number the library reads"""
+    a = int(s[0:4] or '0', 2)
+    if a < 15: return a, 4
+    b = int(s[4:12] or '0', 2)
+    if b < 255: return b, 12
+    return int(s[12:28] or '0', 2), 28
+
+def tvb(tok): return tok[2:]
+
+def dir_applies(pdir, d): return d == pdir or d == 'B'
+
+def field_matches(pf, rf):
+    """matching operators of RFC 8724 §7.3 as the property states them"""
+    v = tvb(pf['value'])
+    if pf['id'] != rf['id']: return False
+    mo = rf['mo']
+    if mo == 'ig': return True
+    if mo == 'eq': return rf['tv'][0] == 'b' and v == tvb(rf['tv'][1])
+    if mo == 'msb':
+        pat = tvb(rf['tv'][1])
+        if rf['len'] != 0 and rf['len'] != len(v): return False
+        return len(pat) <= len(v) and v[:len(pat)] == pat
+    if mo == 'mm':
+        return any(tvb(val) == v for val, _ in rf['tv'][1])
+    raise ValueError(mo)
+
+def applicable(packet, rule):
+    if rule['nature'] == 'n': return True
+    rfs = [f for f in rule['fields'] if dir_applies(packet['dir'], f['dir'])]
+    return len(rfs) == len(packet['fields']) and all(field_matches(pf, rf) for pf, rf in zip(packet['fields'], rfs))
+
+def residue(pf, rf):
+    """RFC 8724 §7.4 residue of one field (with its size prefix when FL = 0)"""
+    v = tvb(pf['value']); cda = rf['cda']
+    if cda in ('ns', 'co'): return ''
+    if cda == 'vs': r = v
+    elif cda == 'lsb': r = v[len(tvb(rf['tv'][1])):]
+    elif cda == 'ms':
+        r = next(tvb(i) for val, i in rf['tv'][1] if tvb(val) == v)
+        return r
+    if rf['len'] == 0: return enc_len(len(r)) + r
+    return r
+
+def ref_compress(packet, rule, descriptors=None):
+    """rule ID, one residue per rule field in rule order, payload (RFC 8724 §7.2 figure 7)"""
+    out = tvb(rule['id'])
+    if rule['nature'] == 'n':
+        return out + ''.join(tvb(f['value']) for f in packet['fields']) + tvb(packet['payload'])
+    rfs = rule['fields'] if descriptors is None else descriptors
+    for pf, rf in zip(packet['fields'], rfs):
+        out += residue(pf, rf)
+    return out + tvb(packet['payload'])
+
+def ref_decompress_fields(bits, rule):
+    """[(id, bits)] + payload, compute fields as None placeholders"""
+    s = bits[len(tvb(rule['id'])):]
+    out = []
+    for rf in rule['fields']:
+        cda = rf['cda']
+        if cda == 'ns': v = tvb(rf['tv'][1])
+        elif cda == 'co': v = None
+        elif cda in ('vs', 'lsb'):
+            pre = tvb(rf['tv'][1]) if cda == 'lsb' else ''
+            if rf['len'] != 0:
+                k = rf['len'] - len(pre); v = pre + s[:k]; s = s[k:]
+            else:
+                k, p = dec_len(s); v = pre + s[p:p + k]; s = s[p + k:]
+        elif cda == 'ms':
+            hits = [(val, i) for val, i in rf['tv'][1] if len(tvb(i)) <= len(s) and s.startswith(tvb(i))]
+            if hits:
+                v = tvb(hits[0][0]); s = s[len(tvb(hits[0][1])):]
+            else:
+                v = ''
+        out.append([rf['id'], v, rf['len']])
+    out.append(['Payload', s, 0])
+    return out
+
+# =====================================================================================================
+# Reference regeneration of computed fields, by field ids, from the RFCs (independent of the library's
+# position arithmetic). `fields` = [[id, bits or None, declared length]] ending with ['Payload', bits, 0].
+# =====================================================================================================
+
+def _bytes_of_bits(b):
+    b = b + '0' * ((8 - len(b) % 8) % 8)
+    return int(b, 2).to_bytes(len(b) // 8, 'big') if b else b''
+
+def ref_compute(fields):
+    from . import packets
+    fs = [list(f) for f in fields]
+    ids = [f[0] for f in fs]
+    def val(i): return fs[i][1] if fs[i][1] is not None else '0' * fs[i][2]
+    def tail_bits(i): return ''.join(val(j) for j in range(i, len(fs)))
+    def nbytes(bits): return (len(bits) + 7) // 8
+    def first(name):
+        return ids.index(name) if name in ids else None
+    def todo(name):
+        i = first(name)
+        return i if i is not None and fs[i][1] is None else None
+    # lengths first
+    i = todo('IPv6:Payload Length')
+    if i is not None:
+        j = first('IPv6:Destination Address')
+        fs[i][1] = format(nbytes(tail_bits(j + 1)) & 0xffff, '016b')
+    i = todo('IPv4:Total Length')
+    if i is not None:
+        fs[i][1] = format(nbytes(tail_bits(first('IPv4:Version'))) & 0xffff, '016b')
+    i = todo('UDP:Length')
+    if i is not None:
+        fs[i][1] = format(nbytes(tail_bits(first('UDP:Source Port'))) & 0xffff, '016b')
+    i = todo('IPv4:Header Checksum')
+    if i is not None:
+        j = first('IPv4:Version')
+        hdr = ''.join(val(k) for k in range(j, j + 12))
+        fs[i][1] = format(packets.inet_checksum(_bytes_of_bits(hdr)), '016b')
+    i = todo('UDP:Checksum')
+    if i is not None:
+        j = first('UDP:Source Port')
+        udp = _bytes_of_bits(tail_bits(j))
+        if 'IPv6:Source Address' in ids:
+            src = _bytes_of_bits(val(first('IPv6:Source Address'))); dst = _bytes_of_bits(val(first('IPv6:Destination Address')))
+            fs[i][1] = format(packets.udp_checksum_v6(src, dst, udp), '016b')
+        else:
+            src = _bytes_of_bits(val(first('IPv4:Source Address'))); dst = _bytes_of_bits(val(first('IPv4:Destination Address')))
+            fs[i][1] = format(packets.udp_checksum_v4(src, dst, udp), '016b')
+    i = todo('SCTP:Checksum')
+    if i is not None:
+        j = first('SCTP:Source Port')
+        pkt = _bytes_of_bits(tail_bits(j))
+        fs[i][1] = packets.bits_of(packets.sctp_checksum(pkt))
+    return fs
+
+def ref_decompress(bits, rule):
+    fs = ref_decompress_fields(bits, rule)
+    if any(f[1] is None for f in fs):
+        fs = ref_compute(fs)
+    return ''.join(f[1] for f in fs)
+
+def compute_position_ok(rule_fields, k):
+    """is the k-th descriptor a computable field sitting in its protocol's layout (all the ids the RFC formula needs present
+    at the offsets the library's position arithmetic assumes)?"""
+    ids = [f['id'] for f in rule_fields]
+    i = ids[k]
+    def at(off, name): return 0 <= k + off < len(ids) and ids[k + off] == name
+    if i == 'IPv6:Payload Length': return at(-3, 'IPv6:Version') and at(4, 'IPv6:Destination Address')
+    if i == 'IPv4:Total Length': return at(-3, 'IPv4:Version')
+    if i == 'IPv4:Header Checksum': return at(-9, 'IPv4:Version') and at(2, 'IPv4:Destination Address')
+    if i == 'UDP:Length': return at(-2, 'UDP:Source Port')
+    if i == 'UDP:Checksum':
+        return at(-3, 'UDP:Source Port') and k >= 4 and (ids[k - 4] in ('IPv6:Destination Address', 'IPv4:Destination Address')) and ids[k - 5].endswith('Source Address')
+    if i == 'SCTP:Checksum': return at(-3, 'SCTP:Source Port')
+    return False
